@@ -1,8 +1,12 @@
 """property id -> check function(tier, replay) for everything that is not a plain board-trace check"""
+import enginefam
 import tablefam
 import tablesfam
 
 CHECKS = {
     "C04": tablesfam.check,
+    "C07": enginefam.check_c07,
+    "C09": enginefam.check_c09,
+    "C16": enginefam.check_c16,
     "C18": tablefam.check,
 }
